@@ -80,7 +80,8 @@ func baseProfile() Profile {
 		Weights: map[string]int{
 			KDelegate: 22, KUndelegate: 14, KRedelegate: 10, KClaim: 6, KBlock: 22, KSlashHook: 3, KSlash: 4,
 			KDonate: 2, KNatDel: 2, KNatUndel: 2, KJail: 1, KUnjail: 1, KUpdate: 2, KUnbTime: 1, KCreate: 1, KDelete: 1,
-			GDrainAsset: 2, GShareFraction: 2, KReimport: 2, GRedelThenExit: 2, GIntoSlashed: 2,
+			GDrainAsset: 2, GShareFraction: 2, KReimport: 2, GRedelThenExit: 4, GIntoSlashed: 2,
+			GPackBucket: 3, GMultiUnbondSlash: 2,
 		},
 		MinSteps: 4, MaxSteps: 40,
 		UnbTimes:   []int64{ns, sec, 3600 * sec, 21 * day},
@@ -636,6 +637,10 @@ func (g *Gen) Step() {
 		leave := b
 		if g.pct("leave-second", 50) {
 			leave = c
+		}
+		if g.pct("bystander-on-destination", 50) {
+			// somebody else holds the asset on the destination that is being left
+			x.Apply(Op{K: KDelegate, D: (d.D + 1 + g.intn("bystander", NumDels-1)) % NumDels, V: leave, Denom: d.Denom, Amt: g.freshAmount("amt")})
 		}
 		s2 := x.Post()
 		if ld, ok := s2.FindDel(d.D, leave, d.Denom); ok {
